@@ -127,7 +127,7 @@ def run(tier, replay=None):
                         run_.diverge(where + " foreign-server", "stage %s of %s saw another server handle" % (s["stage"], r), rp)
                     if s["stage"] == "fh" and job["kind"] == "call" and r in ("r1",) and s["server"] != "own":
                         run_.diverge(where + " server-handle-missing", "the tool handler of %s has no server handle in its context" % r, rp)
-                    if s["stage"] != "cf" and job["transport"] != "legacy" and not s["sender"]:
+                    if s["stage"] not in ("cf", "nh") and job["transport"] != "legacy" and not s["sender"]:
                         run_.diverge(where + " sender-missing", "stage %s of %s has no notification sender" % (s["stage"], r), rp)
                 # temporary sessions of stateless requests are private to their request
                 if job["transport"] == "stateless":
@@ -165,7 +165,11 @@ def run(tier, replay=None):
     had = bool(run_.violations) or bool(run_.known_hit)
     rej = {}
     rej.update(tracebatch.validate(run_, "TraceContext", "TraceContext_body.cfg", [it for it in items if it[0].startswith("lega")]))
-    rej.update(tracebatch.validate(run_, "TraceContext", "TraceContext_cf.cfg", [it for it in items if not it[0].startswith("lega")]))
+    # whether a Streamable server runs the context functions before or after it has read the body is not part of the statement:
+    # a log the one order rejects is tried in the other
+    rej_cf = tracebatch.validate(run_, "TraceContext", "TraceContext_cf.cfg", [it for it in items if not it[0].startswith("lega")])
+    if rej_cf:
+        rej.update(tracebatch.validate(run_, "TraceContext", "TraceContext_body.cfg", [it for it in items if it[0] in rej_cf]))
     for tid, (pos, line) in rej.items():
         if not had:
             raise common.Broken("TLC rejects stage log %s at %s although the comparison accepted it" % (tid, line))
